@@ -65,6 +65,8 @@ func c20Check(c c20Case) h.Result {
 		if !canon {
 			r.Class("limbs-not-canonical")
 		}
+		// recorded, not asserted (the in-tree test happens to pin the even root)
+		r.Class(map[bool]string{true: "V_FACTOR-is-odd-root", false: "V_FACTOR-is-even-root"}[ref.FIsNeg(v)])
 		if ref.FSqr(v).Cmp(ref.C20UFactor) != 0 {
 			r.Fail(sig+":square-is-not-u-factor", "value=%v", ref.FMod(v))
 		}
